@@ -31,6 +31,7 @@ def run(ck):
     ck.rule("C12.R4", "the rebuild covers every callsite and the max level", floor=2)
     ck.rule("C12.R9", "concurrent reloads cannot leave log's max level stale: read-and-publish is serialised", floor=1)
     ck.rule("C12.R10", "what a reload replaces holds no per-span state of its own: a value swapped in judges spans that were opened before the reload", floor=5)
+    ck.rule("C12.R11", "an EnvFilter edited in place is re-read by the rebuild: register_callsite refreshes the per-callsite span matcher on every registration (as C08.R11)", floor=1)
     ck.rule("C12.R8", "a filter edited in place by modify keeps its cached max level an upper bound (DirectiveSet::add, as C08.R4): the rebuild publishes that hint", floor=1)
     ck.rule("C12.R7", "what a reload swaps in is what the stack consults: Layered re-derives a None layer's hint from the live value (as C08.R7)", floor=1)
     ck.rule("C12.R6", "the rebuild reaches every registered callsite: the lock-free list never loses a node (as C04.R3)", floor=5)
@@ -58,6 +59,7 @@ def run(ck):
             C08.r7(ck, F, rid="C12.R7")
             C08.directive_add_rule(ck, Facts("release"), rid="C12.R8")
             r10(ck, F)
+            C08.envfilter_matcher_refresh(ck, F, rid="C12.R11")
     ck.tag = ""
 
 
